@@ -146,7 +146,7 @@ def run(ctx):
 
     ndocs = 600 if T else 70
     for k in range(ndocs):
-        root = rng.choice(['Root'] * 6 + ['Leaf', 'Other', 'Sub', 'Rec', 'Pt', 'Fix', 'Fix'])
+        root = rng.choice(['Root'] * 6 + ['Leaf', 'Other', 'Sub', 'Rec', 'Node', 'Node', 'Pt', 'Fix', 'Fix'])
         v, text = make_doc(root, as_bytes=(k % 3 == 0), strict=(k % 4 == 0), depth=rng.choice([1, 2, 3]))
         docs.append((root, v, text))
     # documents with unknown fields (skipper territory) : wrap / inject
@@ -350,11 +350,66 @@ def run(ctx):
     for _ in range(12000 if T else 600):
         add('random', rng.choice(U.ROOTS), rng.choice(allflags), bytes(rng.choice(alpha) for _ in range(rng.choice([1, 2, 3, 5, 8, 13, 21, 40, 80]))))
 
+    # union vectors whose elements hold unions / union vectors themselves (user frames nested inside a union vector parse),
+    # type vector first, value vector first, and split
+    tree_hand = [
+        b'{"name":"root","kids_type":["Node","Leaf","Leaf"],"kids":[{"name":"k0","single_type":"Node","single":{"name":"k0s","single_type":"Leaf","single":{"s":"deep"}}},{"s":"k1"},{"s":"k2"}]}',
+        b'{"name":"root","kids":[{"name":"k0","single":{"name":"k0s","single":{"s":"deep"},"single_type":"Leaf"},"single_type":"Node"},{"s":"k1"},{"s":"k2"}],"kids_type":["Node","Leaf","Leaf"]}',
+        b'{"kids_type":["Node","Node","Other"],"kids":[{"kids_type":["Leaf","Node"],"kids":[{"n":1},{"single_type":"Leaf","single":{"n":2}}]},{"kids":[{"v":[1]},{"n":3}],"kids_type":["Other","Leaf"]},{"v":[7,8]}]}',
+        b'{"kids":[{"kids":[{"n":1},{"single":{"n":2},"single_type":"Leaf"}],"kids_type":["Leaf","Node"]},{"kids_type":["Other","Leaf"],"kids":[{"v":[1]},{"n":3}]},{"v":[7,8]}],"kids_type":["Node","Node","Other"]}',
+    ]
+    for text in tree_hand:
+        for fl in (0, 1, 2, 4):
+            add('union-tree', 'Node', fl, text, 1)
+    for k in range(160 if T else 40):
+        gg = U.Gen(rng, max_depth=rng.choice([3, 4]))
+        v = gg.table('Node', 0, p_present=rng.choice([0.7, 1.0]))
+        st = U.Style(rng, strict=(k % 2 == 0)); st.union_order = ['type_first', 'value_first', 'split'][k % 3]
+        text = U.render_root('Node', v, st)
+        docs.append(('Node', v, text))
+        add('union-tree', 'Node', rng.choice([0, 0, 1, 2, 4, 31]), text)
+        if k % 4 == 0:
+            for cut in sorted(set(rng.randint(1, len(text)) for _ in range(12))): add('union-tree-truncation', 'Node', rng.choice([0, 1]), text[:cut])
+            for _ in range(6): add('union-tree-mutation', 'Node', rng.choice(allflags), U.mutate(rng, text))
+    # the same parses on a fresh builder whose allocator moves every block it grows (flatcc_builder_custom_init): a pointer into a
+    # builder stack kept across a growing operation is then a heap-use-after-free for ASan, and the result must not depend on the allocator
+    moving = [i for i, c in enumerate(cases) if c[0] in ('valid', 'unknown-fields', 'hand', 'nested-struct-object', 'union-tree', 'union-tree-truncation',
+                                                           'union-tree-mutation', 'all-flags')]
+    rest = [i for i, c in enumerate(cases) if c[0] in ('truncation', 'mutation', 'ends-at-end', 'random')]
+    moving += rng.sample(rest, min(len(rest), 6000 if T else 1500))
+    moving.sort()
     # last: 1 MB of nested known fields (a stack overflow kills the harness process)
     add('deep-known-hostile', 'Rec', 0, b'{"r":' * 200000, 1)
     lines = ['parse %s %d %d 0 %s' % (root, fl, fid, U.hx(text)) for _, root, fl, fid, text in cases]
-    ctx.log('whole parsers: %d requests' % len(lines))
+    mlines = ['parsem' + lines[i][5:] for i in moving]
+    ctx.log('whole parsers: %d requests (+%d on a fresh builder with a moving allocator)' % (len(lines), len(mlines)))
     rep = U.run_resilient(H, lines)
+    mrep = U.run_resilient(H, mlines)
+    for i, ml, mr in zip(moving, mlines, mrep):
+        klass, root, fl, fid, text = cases[i]
+        ctx.count(ml, klass='parse-moving:' + klass)
+        n = len(text)
+        replay = {'harness': 'json_scan_diff', 'harness_line': ml if n < 4000 else ml[:200] + '...', 'root': root, 'flags': fl, 'fid_mode': fid, 'input_len': n,
+                  'input_hex': U.hx(text) if n < 4000 else '(see class %s)' % klass, 'reply': mr[:600], 'reply_on_shared_default_builder': rep[i][:300]}
+        m0, _ub = U.split_ub(mr)
+        r0, _ub = U.split_ub(rep[i])
+        if m0.startswith('ASAN'):
+            key = U.asan_key(m0)
+            if 'heap-use-after-free' in m0:
+                mm = re.search(r'@(\S+)', m0)
+                key = 'stale-builder-pointer:' + (mm.group(1) if mm else '?')
+            if r0.startswith('ASAN') and U.asan_key(r0) == key: continue      # already reported by the run on the default builder
+            ctx.violation(key, 'generated parser %s (flags %d) on a fresh builder whose allocator moves every block it grows: %s on a %d-byte input' % (root, fl, m0[:220], n), replay)
+            continue
+        if m0.startswith(('CRASH', 'HANG')):
+            if r0.startswith(('CRASH', 'HANG')): continue
+            ctx.violation('crash:parse-moving', 'generated parser %s crashed or hung on the moving-allocator builder only: %s' % (root, m0[:300]), replay); continue
+        if r0.startswith(('ASAN', 'CRASH', 'HANG')): continue
+        a, b = m0.split(), r0.split()
+        same = (a[:5] == b[:5]) if a[:1] == ['OK'] else (a[:6] == b[:6])
+        if not same:
+            ctx.violation('allocator-dependent-result', 'the same input gives `%s` on a fresh builder with a moving allocator and `%s` on the default builder (flags %d, root %s)' % (
+                ' '.join(a[:6]), ' '.join(b[:6]), fl, root), replay)
     stat = {'ok': 0, 'err': 0}
     valid_ok = valid_n = 0
     ub_seen = {}
